@@ -8,6 +8,7 @@ PROP=$1; DIR=$2; TIER=${3:-quick}; shift; shift; shift 2>/dev/null
 export GOFLAGS=-mod=mod GOPROXY=off GOSUMDB=off GOTOOLCHAIN=local
 NAME=$(basename $DIR)
 WT=/tmp/try/$PROP-$NAME-$$
+V=${V:-/verif}
 OUT=/verif/seeded/$PROP-$NAME
 mkdir -p /tmp/try $OUT
 cp -r $DIR/patch.diff $DIR/demo.sh $DIR/meta.json $OUT/ 2>/dev/null
@@ -15,7 +16,7 @@ for f in $DIR/*.go $DIR/*.pl $DIR/*.sh; do [ -f "$f" ] && cp "$f" $OUT/ ; done
 LOG=$OUT/confirm.txt
 : > $LOG
 git -C /repo worktree add --detach $WT HEAD -q || exit 2
-cleanup() { git -C /repo worktree remove --force $WT >/dev/null 2>&1; }
+cleanup() { git -C /repo worktree remove --force $WT >/dev/null 2>&1; H=$(python3 -c "import hashlib,os,sys;print(hashlib.sha256(os.path.realpath(sys.argv[1]).encode()).hexdigest()[:8])" $WT); rm -rf $V/harness/bin-alt-$H $V/harness/go.bin-alt-$H.*; }
 trap cleanup EXIT
 echo "repo HEAD: $(git -C /repo rev-parse --short HEAD)   verif HEAD: $(git -C /verif rev-parse --short HEAD)" >> $LOG
 (bash $DIR/demo.sh $WT >/tmp/try/demo0.log 2>&1); D0=$?
@@ -29,5 +30,5 @@ echo "demo.sh with the change: exit $D1" | tee -a $LOG
 git -C $WT clean -fdq
 for P in $PROP "$@"; do
   echo "== VERIF_REPO=<worktree with change> ./check $P $TIER" | tee -a $LOG
-  (cd /verif && VERIF_REPO=$WT ./check $P $TIER 2>&1 | grep -v "^KNOWN-FINDING" | tail -4 | cut -c1-500) | tee -a $LOG
+  (cd $V && VERIF_REPO=$WT ./check $P $TIER 2>&1 | grep -v "^KNOWN-FINDING" | tail -4 | cut -c1-500) | tee -a $LOG
 done
